@@ -255,8 +255,9 @@ def inplace_equiv(facts, m, adt_name, depth=0):
                 done[f] = True
             continue
         # (b0) `for x in self.f.iter_mut() { x.reset() }`: every element of the array field
-        it = [q for q in _subterms(a) if q[0] == "call" and q[1].endswith(("iter_mut", "IntoIterator::into_iter"))]
-        if it and pat.has_call(a, "::next"):
+        it = [q for q in _subterms(a) if q[0] == "call" and q[1].endswith(("iter_mut", "IntoIterator::into_iter")) and
+              not any(z[0] == "agg" and str(z[1]).endswith("Range::Range") for z in _subterms(q))]
+        if it and pat.has_call(a, "::next") and not (isinstance(base, tuple) and base[0] == "index"):
             fbs = [q for q in _subterms(it[0]) if q[0] == "field" and q[1] in ftys and isinstance(ftys[q[1]], dict) and ftys[q[1]].get("k") == "array"]
             if fbs:
                 f = fbs[0][1]
